@@ -332,10 +332,30 @@ def compare(I, op, a, b):
 
 # ------------------------------------------------------------------ subscripts / slices
 
+def lower_bound(t):
+    """cheap syntactic lower bound of an integer term (None = unknown)"""
+    if isinstance(t, int):
+        return t
+    if z3.is_int_value(t):
+        return t.as_long()
+    if z3.is_app(t):
+        k = t.decl().kind()
+        if k == z3.Z3_OP_SEQ_LENGTH:
+            return 0
+        if k == z3.Z3_OP_ADD:
+            bs = [lower_bound(c) for c in t.children()]
+            return None if any(b is None for b in bs) else sum(bs)
+    return None
+
+
 def clip_index(I, i, n, is_upper, default):
     """python slice bound clipping; i may be None/int/z3; n length (int/z3)."""
     if i is None:
         return default
+    if isinstance(i, int) and i >= 0 and not isinstance(n, int):
+        lb = lower_bound(z3.simplify(to_z3_int(n)))
+        if lb is not None and lb >= i:
+            return i
     if isinstance(i, int) and isinstance(n, int):
         if i < 0:
             i += n
@@ -359,6 +379,10 @@ def slice_bounds(I, sl, n):
         if hi < lo:
             hi = lo
         return lo, hi
+    if isinstance(lo, int) and not isinstance(hi, int):
+        lb = lower_bound(z3.simplify(to_z3_int(hi)))
+        if lb is not None and lb >= lo:
+            return lo, hi
     hi2 = norm_int(z3.If(to_z3_int(hi) < to_z3_int(lo), to_z3_int(lo), to_z3_int(hi)))
     return lo, hi2
 
